@@ -267,6 +267,38 @@ func C18(tier Tier) int {
 			e.Case(fmt.Sprintf("activation:%d:last%d:active%v:ts%d", act, ep, want, policy))
 		}
 	})
+	// containers built while the notifier is already in some epoch (it confirms that epoch to every
+	// subscriber on registration): active exactly when that epoch >= activation, right away and
+	// after every further notification
+	{
+		e := ws[0]
+		for _, act := range activations {
+			for _, init := range epochs {
+				init := init
+				env, err := world.NewEnv(world.EnvConfig{NumShards: 1, ActivationEpoch: act, NotifierEpoch: &init})
+				if err != nil {
+					panic(err)
+				}
+				c := env.Shards[0].Container
+				last := init
+				for step := 0; step < 3; step++ {
+					want := last >= act
+					for _, name := range protocolNames {
+						f, gerr := c.Get(name)
+						if gerr != nil {
+							continue
+						}
+						if epochGated[name] && f.IsActive() != want {
+							e.Fail(P, "activation", fmt.Sprintf("%s:built-in-epoch:active=%v-want=%v", name, f.IsActive(), want), fmt.Sprintf("activation epoch %d, container built while the notifier was in epoch %d, then %d further notification(s) (last epoch %d): %s reports active=%v", act, init, step, last, name, f.IsActive()), "case", fmt.Sprintf("built-in-epoch %d %d %d", act, init, step))
+						}
+					}
+					e.Case(fmt.Sprintf("activation-at-construction:%d:%d:%v", act, init, want))
+					last = epochs[(step*3+1)%len(epochs)]
+					env.ConfirmEpoch(last)
+				}
+			}
+		}
+	}
 	states := map[string]bool{}
 	for _, m := range stateSets {
 		for k := range m {
